@@ -69,6 +69,9 @@ structure FnOK (F : Fn α) (T : TrigFn α) : Prop where
   pow : PowLaws F
   /-- `x ** y ≥ 0` for `x ≥ 0` -/
   powNN : PowNonneg F
+  /-- `x ** 2 = x · x` (the sites where the Python writes `** 2`: adjusted field capacity above a
+  water table, SCS runoff, micro-advection polynomial of the canopy cover) -/
+  powSq : PowSqLaw F
   /-- `-1 ≤ sin ≤ 1` -/
   sin : SinLaw T
 
@@ -197,7 +200,7 @@ section cfg
 variable {F : Fn α} {T : TrigFn α} {cfg : RunCfg α}
 
 theorem CfgOK.runPre (h : CfgOK F T cfg) : RunPre F cfg :=
-  ⟨h.fn.exp, h.cells0, h.pond0, h.smt, h.smtF, h.thini, h.bundWater⟩
+  ⟨h.fn.exp, h.fn.powSq, h.cells0, h.pond0, h.smt, h.smtF, h.thini, h.bundWater⟩
 
 theorem paramsOf_crop (cfg : RunCfg α) (season : Int) (gs : Bool) :
     (paramsOf cfg season gs).W.crop = (cropOf cfg season).cw ∧
